@@ -186,6 +186,14 @@ def demo2 : S := runOps (fun _ => []) (initS true 0 0 false false false [.ok 1, 
 example : demo2.cbs = [⟨0, -32, 1, 3⟩, ⟨1, UV_ECANCELED, 0, 2⟩] ∧ demo2.wqs = 0 ∧
     demo2.fdSent = [(0, 0)] ∧ demo2.hardErr = true := by decide +kernel
 
+/-- uv_shutdown accepted while the stream is still connecting (nothing queued) completes once the
+    connection is established (stream.c 1285-1292 keeps POLLOUT armed; before that repair the
+    request was never completed) -/
+def connDemo : S := runOps (fun _ => []) (initS false 0 0 true true false [])
+  ([.api .shutdown] ++ loopIter ++ loopIter)
+example : connDemo.shut = true ∧ connDemo.shutdownReq = false ∧ Ev.shutcb 0 ∈ connDemo.trace ∧
+    Ev.ret 0 ∈ connDemo.trace := by decide +kernel
+
 /-- zero-length requests do not block uv_try_write (no queued *data*): documented behaviour -/
 example : (tryWrite2 (runOps (fun _ => []) (initS false 0 0 false false false [.fail 11, .ok 9])
     [.api (.write [0] false)]) [2] false).2 = 2 := by decide +kernel
